@@ -303,7 +303,7 @@ namespace
 
             if (res.has_value())
             {
-                frame f(runtime.default_value_scope(), res.value(), std::make_shared<behavior_configclasses_exit>(nav));
+                frame f(runtime.current_value_scope(), res.value(), std::make_shared<behavior_configclasses_exit>(nav));
                 f["_x"] = { *(nav.begin()) };
                 runtime.context_active().push_frame(f);
             }
@@ -382,7 +382,7 @@ namespace
 
                 if (res.has_value())
                 {
-                    frame f(runtime.default_value_scope(), res.value(), std::make_shared<behavior_configproperties_exit>(nav));
+                    frame f(runtime.current_value_scope(), res.value(), std::make_shared<behavior_configproperties_exit>(nav));
                     f["_x"] = nav->operator[](0);
                     runtime.context_active().push_frame(f);
                 }
